@@ -222,7 +222,22 @@ func meshHistories2(r *vlib.Run) {
 		var all []*model2d.Segment
 		steps := 10 + rng.Intn(40)
 		muts := 0
+		type fork struct {
+			m   *model2d.Mesh
+			mod *model2
+		}
+		forks := []*fork{{mesh, mod}}
 		for s := 0; s < steps; s++ {
+			cur := forks[rng.Intn(len(forks))]
+			mesh, mod = cur.m, cur.mod
+			if len(forks) < 3 && rng.Intn(12) == 0 {
+				nmod := &model2{}
+				nmod.faces = append(nmod.faces, mod.faces...)
+				forks = append(forks, &fork{mesh.Copy(), nmod})
+				hist = append(hist, "fork(Copy)")
+				c.Count("mesh2d.forks", 1)
+				continue
+			}
 			op := rng.Intn(16)
 			switch {
 			case op < 6:
@@ -269,11 +284,23 @@ func meshHistories2(r *vlib.Run) {
 				hist = append(hist, "query")
 				compare2(c, mesh, mod, pool, &hist, true)
 			}
-			if !compare2(c, mesh, mod, pool, &hist, false) {
-				return
+			for _, fk := range forks {
+				if !compare2(c, fk.m, fk.mod, pool, &hist, false) {
+					return
+				}
+			}
+			if len(forks) > 1 && s%4 == 0 {
+				for _, fk := range forks {
+					if fk != cur && !compare2(c, fk.m, fk.mod, pool, &hist, true) {
+						return
+					}
+				}
 			}
 		}
-		compare2(c, mesh, mod, pool, &hist, true)
+		for _, fk := range forks {
+			compare2(c, fk.m, fk.mod, pool, &hist, true)
+		}
+		mesh, mod = forks[0].m, forks[0].mod
 		// derived meshes
 		want := make([]vlib.Seg, len(mod.faces))
 		for i, f := range mod.faces {
